@@ -129,9 +129,15 @@ int ref_must_reject(const uint8_t *B, size_t n)
 	}
 	is_dir = memcmp(method, "-lhd-", 5) == 0;
 	if (!is_dir) {
+		/* Amiga archivers store directories as nameless empty -lh0- entries: such an entry counts as a directory entry
+		 * (and then needs a path like any other) */
 		int amiga_quirk = level >= 1 && (level == 1 ? B[24 + B[21]] : B[23]) == 'A' && memcmp(method, "-lh0-", 5) == 0 && r32(B + 11) == 0;
-		if (!inhdr_name && !e.has_name && !amiga_quirk) return 11;
-	} else {
+		if (!inhdr_name && !e.has_name) {
+			if (!amiga_quirk) return 11;
+			is_dir = 1;
+		}
+	}
+	if (is_dir) {
 		int maybe_symlink = e.has_perms == 1 && (e.perms & 0170000) == 0120000;
 		if (!maybe_symlink && !inhdr_path && !e.has_path) return 12;
 	}
